@@ -135,20 +135,42 @@ def checks_for(rel, lineno):
         return ["C20", "C11"]
     if base == "arm_v6.py":
         fn = enclosing_function(os.path.join(REPO, rel), lineno)
-        if re.search(r"translat|walk|domain|check_permission(?!_pmsa)|tlb|second_stage|s2|combine|mair|remap|default_tex|convert_attr", fn):
-            return ["C15", "C19"]
-        if re.search(r"pmsa|mpu|default_memory_attr|check_permission", fn):
-            return ["C14", "C19", "C15"]
-        if re.search(r"mem_[aui]|big_endian|unaligned|alignment", fn):
-            return ["C13", "C02", "C14", "C19"]
-        if re.search(r"exception|take_|vector|exc_", fn):
-            return ["C11", "C12"]
-        if re.search(r"condition|cond", fn):
-            return ["C05", "C08"]
-        if re.search(r"write_pc|branch|fetch|emulate|execute|increment_pc|decode|it_", fn):
-            return ["C04", "C08", "C18", "C20", "C11"]
-        return ["C12", "C11", "C01", "C15", "C14", "C13"]
+        for pat, checks in ARMV6_MAP:
+            if re.search(pat, fn):
+                return checks
+        return ["C12", "C11", "C01"]
     return ["C13", "C15", "C14", "C11"]
+
+
+# function of arm_v6.py -> checks ([] = not behaviour any property talks about: debug output, HSR syndrome, mocks)
+ARMV6_MAP = [
+    (r"^(__init__|start|format_registers|print_registers|ls_instruction_syndrome|this_instr|write_hsr|switch_to_jazelle|"
+     r"null_check_if_thumbee|tlb_lookup_came|bkpt_instr_debug_event|coproc_(get|done|send|internal)|hint_preload|"
+     r"data_synchronization|instruction_synchronization|cp1[45]_|cpx_)", []),
+    (r"^select_configurations", ["C20"]),
+    (r"^take_reset", ["C11", "C20"]),
+    (r"^encode_ldfsr", ["C15"]),
+    (r"^encode_sdfsr", ["C15", "C13", "C14"]),
+    (r"^encode_pmsafsr", ["C14", "C13"]),
+    (r"^(current_cond|condition_passed)", ["C05", "C08"]),
+    (r"write_pc$", ["C04", "C01", "C02"]),
+    (r"^(fcse_translate|default_memory_attributes|convert_attrs_hints|check_permission|check_domain|second_stage|combine_s1s2|"
+     r"mair_decode|s2_attr_decode|remap_regs|default_tex_decode|remapped_tex_decode|translation_table_walk|translate_address_v)",
+     ["C15", "C19"]),
+    (r"^data_abort", ["C15", "C14", "C13"]),
+    (r"^alignment_fault", ["C13", "C14", "C15"]),
+    (r"^translate_address_p", ["C14", "C19"]),
+    (r"^translate_address$", ["C14", "C15", "C13"]),
+    (r"exclusive", ["C02"]),
+    (r"^mem_i_get", ["C13", "C18"]),
+    (r"^mem_", ["C13", "C14", "C02"]),
+    (r"^(big_endian|unaligned_support)", ["C13", "C02"]),
+    (r"^(hint_yield|clear_event|event_registered|send_event|wait_for)", ["C12"]),
+    (r"integer_zero_divide", ["C09"]),
+    (r"^(call_supervisor|generate_coprocessor_exception|instr_is_pl0|coproc_accepted)", ["C12", "C11"]),
+    (r"^(in_it_block|last_in_it_block)", ["C08", "C07"]),
+    (r"^(increment_pc|emulate_cycle|fetch_instruction|decode_instruction|execute_instruction)", ["C04", "C08", "C18"]),
+]
 
 
 def enclosing_function(path, lineno):
@@ -302,7 +324,11 @@ def main():
                 results = list(ex.map(test_one, [(k, m) for k, m in enumerate(batch)]))
             for m, verdict in results:
                 rec = {"mutant": list(m), "tests": verdict}
-                if verdict == "pass":
+                if verdict == "pass" and not checks_for(m[0], m[1]):
+                    rec["result"] = "survived"
+                    rec["checks"] = []
+                    rec["note"] = "function outside every property (no check mapped)"
+                elif verdict == "pass":
                     d = copies[0]
                     apply(d, m)
                     try:
